@@ -364,6 +364,13 @@ func (s *Server) SendInitErrorResponse(resp *interop.ErrorInvokeResponse) error 
 	}
 
 	// Handle an /init/error outside of the invoke phase
+	if len(resp.Payload) > interop.MaxPayloadSize {
+		// the cached response is sent with the next invocation: refuse now what could not be delivered then
+		return &interop.ErrorResponseTooLarge{
+			ResponseSize:    len(resp.Payload),
+			MaxResponseSize: interop.MaxPayloadSize,
+		}
+	}
 	s.setCachedInitErrorResponse(resp)
 	s.setRuntimeState(runtimeInitError)
 	return nil
